@@ -374,6 +374,24 @@ def run(ck: vlib.Check):
         ck.evaluations += 2 ** width + 2 ** len(impl.fields[codec])
         if bad:
             ck.violation(f"flag codec {codec} is not exact: {bad}", {"kind": "flags", **bad}, True)
+    # ... and again with every logger of the process set to a level that silences / enables everything: what a codec returns
+    # must not depend on whether its diagnostics would be emitted
+    import logging
+    loggers = [logging.getLogger()] + [lg for lg in logging.root.manager.loggerDict.values() if isinstance(lg, logging.Logger)]
+    saved = [lg.level for lg in loggers]
+    try:
+        for level in (logging.CRITICAL, logging.ERROR, logging.DEBUG):
+            for lg in loggers:
+                lg.setLevel(level)
+            for codec in FLAG_NBITS:
+                bad = flags_oracle(impl, codec)
+                ck.evaluations += 2 ** FLAG_NBITS[codec][0]
+                if bad:
+                    ck.violation(f"flag codec {codec} is not exact when the loggers are at level {logging.getLevelName(level)}: {bad}",
+                                 {"kind": "flags", "logger_level": logging.getLevelName(level), **bad}, True)
+    finally:
+        for lg, lv in zip(loggers, saved):
+            lg.setLevel(lv)
     enum_limit = 1200 if tier == "quick" else 70000
     es = translate_enums.enums()
     for name, (E, rows) in es.items():
